@@ -6,6 +6,7 @@ import Sudachi.Model.Sentence
 import Sudachi.Model.OovIO
 import Sudachi.Model.Normalize
 import Sudachi.Model.Numeric
+import Sudachi.Model.Cli
 /-! Line protocol dispatcher: one case per line in, one answer per line out. -/
 namespace Driver
 
@@ -22,6 +23,7 @@ def answer (line : String) : String :=
     | "C13" => Oov.handle op rest
     | "C07" => Normalize.handle op rest
     | "C15" => Numeric.handle op rest
+    | "C19" => Cli.handle op rest
     | _ => "bad-op"
   | _ => "bad-op"
 
